@@ -288,6 +288,57 @@ const (
 // Atoms that are neither known nor related to the entry state are quantified
 // universally. Returns fFalse with a counterexample when no entry condition suffices.
 func residual(g *Formula, facts *Facts, mode func(a *Atom) int) (res *Formula, cex map[string]bool) {
+	r0, cex := residual0(g, facts, mode)
+	if r0.K == FTrue || r0.K == FFalse {
+		return r0, cex
+	}
+	// the path was taken under conditions on the entry state: R = premise ⇒ R0, where the premise
+	// keeps the path literals that a caller can contradict (stable atoms, parameter atoms, and atoms
+	// over the locations R0 talks about)
+	locs := map[string]bool{}
+	for _, a := range r0.atomList() {
+		for _, l := range a.Reads {
+			locs[l] = true
+		}
+	}
+	var prem []*Formula
+	var keys []string
+	for k := range facts.m {
+		keys = append(keys, k)
+	}
+	sort.Strings(keys)
+	for _, k := range keys {
+		at := facts.atoms[k]
+		if mode(at) != ModeEqual {
+			continue
+		}
+		rel := hasParamTerm(at.A) || hasParamTerm(at.B) || at.S == "ctx.MyIndex<0" || at.S == "cfg.WatchOnly()"
+		if !rel {
+			for _, l := range at.Reads {
+				if locs[l] {
+					rel = true
+				}
+			}
+		}
+		if !rel {
+			continue
+		}
+		if facts.m[k] {
+			prem = append(prem, fAtom(at))
+		} else {
+			prem = append(prem, fNot(fAtom(at)))
+		}
+	}
+	if len(prem) == 0 {
+		return r0, cex
+	}
+	if len(prem) > 8 {
+		prem = prem[:8]
+	}
+	return fOr(fNot(fAnd(prem...)), r0), cex
+}
+
+func residual0(g *Formula, facts *Facts, mode func(a *Atom) int) (res *Formula, cex map[string]bool) {
 	g = g.subst(facts.value)
 	if g.K == FTrue {
 		return fTrue, nil
